@@ -158,6 +158,15 @@ impl GenerationPass for AvailableValuePass {
                 if node.calls_to().is_some() {
                     out_reg_n -= Register::return_addr_set().iter();
                 }
+                if node.is_ecall() {
+                    // An environment call overwrites its result registers
+                    // (a0 and a1 if we do not know which call it is)
+                    let results = node.known_ecall_signature().map_or_else(
+                        || [Register::X10, Register::X11].into_iter().collect(),
+                        |(_, outs)| outs,
+                    );
+                    out_reg_n -= results.iter();
+                }
                 if let Some((reg, reg_value)) = node.gen_reg_value() {
                     out_reg_n.insert(reg, reg_value);
                 }
